@@ -67,6 +67,8 @@ type c05Case struct {
 
 const c05Slots = 3
 
+const c05FirstGen = 10
+
 var inflightPoints = map[string]bool{
 	"query.reader-acquired": true, "query.location-found": true, "query.cache-probed": true,
 	"query.authority-checked": true, "query.answer-found": true,
@@ -94,6 +96,7 @@ type c05World struct {
 	served    string
 	committed int
 	nPaths    int
+	prev      string // the path served before the current one
 }
 
 // prebuilt RocksDB directories per (backend, generation, withKey): compiling is
@@ -129,6 +132,8 @@ func (w *c05World) makeDB(path string, g int, withKey bool) error {
 			return err
 		}
 		_ = tmp
+		fixed := time.Unix(1700000000, 0)
+		_ = os.Chtimes(p, fixed, fixed)
 		return os.Rename(p, path)
 	}
 	src, err := c05Prebuilt(w.backend, g, withKey)
@@ -140,13 +145,16 @@ func (w *c05World) makeDB(path string, g int, withKey bool) error {
 }
 
 func newC05World(b kit.Backend, cache dnsserver.CacheConfig, st *kit.SchedStats) (*c05World, error) {
-	w := &c05World{backend: b, dir: kit.Scratch("c05"), pathGen: map[string]int{}, nextGen: 1}
+	// generations are two-digit numbers, so every generation's file has the same size;
+	// CDB files also get one fixed modification time (a republished file may look
+	// unchanged by size and time, it is still a new generation)
+	w := &c05World{backend: b, dir: kit.Scratch("c05"), pathGen: map[string]int{}, nextGen: c05FirstGen}
 	p := filepath.Join(w.dir, "A")
-	if err := w.makeDB(p, 1, true); err != nil {
+	if err := w.makeDB(p, c05FirstGen, true); err != nil {
 		return nil, err
 	}
-	w.pathGen[p] = 1
-	w.served, w.committed = p, 1
+	w.pathGen[p] = c05FirstGen
+	w.served, w.committed = p, c05FirstGen
 	ho := kit.HandlerOpts{ValidationKey: kit.ValidationKey(b), Cache: cache}
 	if st != nil {
 		ho.Stats = st
@@ -197,6 +205,23 @@ func (w *c05World) prepareReload(kind string) (dnsserver.ReloadSignal, string, e
 		}
 		w.pathGen[p] = w.nextGen
 		return *dnsserver.NewFullReloadSignal(p), p, nil
+	case "full-prev":
+		// back to a database that was served before (after something else was served)
+		if w.prev == "" || w.prev == w.served {
+			return w.prepareReload("full-ok")
+		}
+		// the database at the previous path is republished with a newer generation first
+		// (stamps must grow with every successful reload for the history invariants)
+		w.nextGen++
+		if w.backend == kit.CDB {
+			if err := w.makeDB(w.prev, w.nextGen, true); err != nil {
+				return dnsserver.ReloadSignal{}, "", err
+			}
+		} else if err := kit.ApplyStampDiff(w.prev, w.pathGen[w.prev], w.nextGen); err != nil {
+			return dnsserver.ReloadSignal{}, "", err
+		}
+		w.pathGen[w.prev] = w.nextGen
+		return *dnsserver.NewFullReloadSignal(w.prev), w.prev, nil
 	case "missing":
 		return *dnsserver.NewFullReloadSignal(filepath.Join(w.dir, "does-not-exist")), "", nil
 	case "garbage":
@@ -243,7 +268,7 @@ func genC05Steps(t *rapid.T) []c05Step {
 		}
 		kind := "partial"
 		if !staged || rapid.IntRange(0, 2).Draw(t, "scen-full") == 0 {
-			kind = rapid.SampledFrom([]string{"full-ok", "full-ok", "partial", "missing", "nokey", "garbage"}).Draw(t, "scen-kind")
+			kind = rapid.SampledFrom([]string{"full-ok", "full-ok", "full-prev", "partial", "missing", "nokey", "garbage"}).Draw(t, "scen-kind")
 		}
 		prefix = append(prefix, c05Step{Op: "r-start", Kind: kind}, c05Step{Op: "r-adv", N: rapid.IntRange(1, 4).Draw(t, "scen-m")})
 		if rapid.Bool().Draw(t, "scen-free") {
@@ -272,7 +297,7 @@ func genC05Steps(t *rapid.T) []c05Step {
 		case "r-adv":
 			st.N = rapid.IntRange(1, 4).Draw(t, "n")
 		case "r-start":
-			st.Kind = rapid.SampledFrom([]string{"partial", "partial", "full-ok", "full-ok", "missing", "garbage", "nokey"}).Draw(t, "kind")
+			st.Kind = rapid.SampledFrom([]string{"partial", "partial", "full-ok", "full-ok", "full-prev", "missing", "garbage", "nokey"}).Draw(t, "kind")
 		}
 		steps[i] = st
 	}
@@ -361,7 +386,10 @@ func c05Run(t kit.Fataler, b kit.Backend, steps []c05Step, record bool, ignoreKn
 			switch reloadKind {
 			case "partial":
 				w.committed = w.pathGen[w.served]
-			case "full-ok":
+			case "full-ok", "full-prev":
+				if reloadTarget != w.served {
+					w.prev = w.served
+				}
 				w.served = reloadTarget
 				w.committed = w.pathGen[reloadTarget]
 			default:
@@ -369,7 +397,7 @@ func c05Run(t kit.Fataler, b kit.Backend, steps []c05Step, record bool, ignoreKn
 			}
 			lastReloadFailed = false
 		} else {
-			if reloadKind == "partial" || reloadKind == "full-ok" {
+			if reloadKind == "partial" || reloadKind == "full-ok" || reloadKind == "full-prev" {
 				fail("good-reload-failed", "reload of kind %s failed: %v", reloadKind, reloadErr)
 			}
 			lastReloadFailed = true
